@@ -810,8 +810,9 @@ def single_phase_clauses(ctx, res, case, row):
                 ctx.violation('single-root-ideal-gas-in-liquid-row', 'single-root state of near-ideal compressibility at low reduced pressure placed in the LIQUID row',
                               dict(case, Z=res['Z'], reduced_pressure=res['Pr']))
             elif row is None:
-                ctx.violation('ideal-gas-partly-in-liquid-row', 'single-root near-ideal state reported as two identical phases: part of the gas sits in the LIQUID row',
-                              dict(case, Z=res['Z'], reduced_pressure=res['Pr'], liquid_mass_fraction=res.get('liquid_mass_fraction')))
+                # two IDENTICAL phases reported (trivial split, K = 1 +- ulp): conservation, isofugacity and K = ratio all hold and
+                # the property's single-phase clauses do not apply, so this is an observation, not a violation (see DESIGN §9.7)
+                ctx.count('flash:observation:near-ideal-gas-reported-as-two-identical-phases')
     t = res.get('tpd')
     if t is not None:
         ctx.count('flash:tpd-trials', t['n'] - t['skipped'])
